@@ -911,6 +911,11 @@ def r24_call_shim(src, item, ed, opts):
                         root = inner[0]["receiver"]
                     if list(root) != list(a["range"]):
                         env[f"arg{j}_root"] = src.text(*root)
+                # a receiver that is a plain call (`String::from_utf8(b).map_err(..)`): its arguments by name
+                for rn in nodes_of(item, "call"):
+                    if list(rn["range"]) == list(n["receiver"]):
+                        for j, a in enumerate(rn["args"]):
+                            env[f"recv_arg{j}"] = src.text(*a["range"])
                 # a receiver that is itself a method call (`a.entry(k).or_insert(v)`): its parts by name
                 for rn in nodes_of(item, "methodcall"):
                     if list(rn["range"]) == list(n["receiver"]):
